@@ -4,13 +4,13 @@ Helper class for generating URL, query parameters, and header parameters for an 
 
 from __future__ import annotations
 
-import json
 import logging
 import re  # For _build_url_with_path_vars
 from typing import TYPE_CHECKING, Any, List
 
 from pyopenapi_gen.core.utils import NameSanitizer
 from pyopenapi_gen.core.writers.code_writer import CodeWriter
+from pyopenapi_gen.core.writers.python_construct_renderer import py_string_literal
 
 if TYPE_CHECKING:
     from pyopenapi_gen import IROperation  # IRParameter might be needed for op.parameters access
@@ -54,13 +54,13 @@ class EndpointUrlArgsGenerator:
 
             if p.get("required", False):
                 writer.write_line(
-                    f"    {json.dumps(original_param_name, ensure_ascii=False)}: "
+                    f"    {py_string_literal(original_param_name)}: "
                     f"DataclassSerializer.serialize({param_var_name}){line_end}"
                 )
             else:
                 # Using dict unpacking for conditional parameters
                 writer.write_line(
-                    f"    **({{{json.dumps(original_param_name, ensure_ascii=False)}: "
+                    f"    **({{{py_string_literal(original_param_name)}: "
                     f"DataclassSerializer.serialize({param_var_name})}} "
                     f"if {param_var_name} is not None else {{}}){line_end}"
                 )
@@ -87,14 +87,14 @@ class EndpointUrlArgsGenerator:
 
             if p_info.get("required", False):
                 writer.write_line(
-                    f"    {json.dumps(original_header_name, ensure_ascii=False)}: DataclassSerializer.serialize({param_var_name}){line_end}"
+                    f"    {py_string_literal(original_header_name)}: DataclassSerializer.serialize({param_var_name}){line_end}"
                 )
             else:
                 # Conditional inclusion for optional headers
                 # This assumes that if an optional header parameter is None, it should not be sent.
                 # If specific behavior (e.g. empty string) is needed for None, logic would adjust.
                 writer.write_line(
-                    f"    **({{{json.dumps(original_header_name, ensure_ascii=False)}: DataclassSerializer.serialize({param_var_name})}} "
+                    f"    **({{{py_string_literal(original_header_name)}: DataclassSerializer.serialize({param_var_name})}} "
                     f"if {param_var_name} is not None else {{}}){line_end}"
                 )
 
